@@ -31,7 +31,10 @@
      that were written) ; Reopen (New, optionally followed by LoadFromDB); StoreBlock (the chain
      advances: head nonces move).
 
-   DEFECTS AS CODED (boolean switches; FALSE = the code as it is, TRUE = repaired):
+   DEFECTS AS CODED (boolean switches; FALSE = the code as it is, TRUE = repaired as on branch
+   builderG09: Push appends under the list mutex unless the hash is already in the list, THEN hands
+   the transaction to the writer; the writer skips a transaction that is already persisted; a
+   full write channel is only logged):
      DedupFix    Push does not look for the hash in the pool.  A transaction pushed twice is
                  written twice by writeToDB: the second write RESETS the node's next pointer, and
                  when the node is the current tail the "old tail" update makes it point to
@@ -44,7 +47,8 @@
                  nil.
    The rest of the as-coded behaviour is design (stated, with expected-violation configs):
      - the persistent list is a log: popped transactions come back after a restart (NoRevival);
-     - the capacity check is an unlocked read: n concurrent pushers overshoot by n-1 (StrictBound);
+     - the capacity check is an unlocked read: n concurrent pushers overshoot by n-1
+       (StrictCapacityOnPush);
      - enqueue-for-persistence and in-memory append are two steps: concurrent pushers can be
        persisted in the other order than they are popped (SameOrder);
      - Push after Close panics (send on closed channel);
@@ -105,9 +109,6 @@ view == <<st, mem, wq, wcur, dh, dt, dl, dn, token, pu, cs, height, hn,
 Range(s) == {s[i] : i \in DOMAIN s}
 Min(a, b) == IF a < b THEN a ELSE b
 IsPrefix(a, b) == Len(a) <= Len(b) /\ \A i \in 1..Len(a) : a[i] = b[i]
-RECURSIVE IsSubseq(_, _)
-IsSubseq(a, b) == IF a = <<>> THEN TRUE ELSE IF b = <<>> THEN FALSE
-                  ELSE IF Head(a) = Head(b) THEN IsSubseq(Tail(a), Tail(b)) ELSE IsSubseq(a, Tail(b))
 NoDup(s) == \A i, j \in DOMAIN s : i # j => s[i] # s[j]
 
 IdleP == [pc |-> "idle", t |-> None, eff |-> FALSE, pushed |-> FALSE]
